@@ -13,6 +13,7 @@ from dalimc.core.explorer import explore
 from dalimc.aio.engine import execute, Caller
 
 ID = "C17"
+OPTIMISED_STRIDE = {"quick": 12, "thorough": 24}      # every k-th shard once more in an interpreter started with -O
 LEVEL = "fault_enumeration"
 ENGINE = "E3"
 TECHNIQUE = "exhaustive fault placement: device loss / caller cancellation / gateway silence injected at every scheduler boundary of every schedule within the deviation bound, on the real asyncio drivers over a virtual loop"
